@@ -260,6 +260,9 @@ func (m *histModel) traversalInfo(fn *ssa.Function) *travInfo {
 	}
 	var found *ssa.Function
 	for _, a := range Anons(fn) {
+		if a.Parent() == nil {
+			continue // a named recursive function adopted by Anons: the package-level form below describes it (pass-through parameters)
+		}
 		if a.Signature.Results().Len() == 1 && types.Identical(a.Signature.Results().At(0).Type(), m.opIface) {
 			if found != nil {
 				return nil
